@@ -101,5 +101,33 @@ def _has_token(exc):
         return True
 
 
-class SymRecordSeq:
-    pass
+class OSet:
+    """insertion-ordered set model: Python leaves set iteration order unspecified (it depends on hash values,
+    hence on PYTHONHASHSEED for strings and on memory addresses for objects); harnesses that care about it
+    substitute this class for `set` in the module under test and supply every insertion permutation."""
+    def __init__(self, items=()):
+        self._items = []
+        for i in items:
+            self.add(i)
+
+    def add(self, item):
+        for x in self._items:
+            if x is item or x == item:
+                return
+        self._items.append(item)
+
+    def update(self, items):
+        for i in items:
+            self.add(i)
+
+    def __iter__(self):
+        return iter(list(self._items))
+
+    def __len__(self):
+        return len(self._items)
+
+    def __contains__(self, item):
+        return any(x is item or x == item for x in self._items)
+
+    def __bool__(self):
+        return bool(self._items)
